@@ -213,7 +213,20 @@ func c18Check(c c18Case) (out kit.Outcome) {
 			return out
 		}
 	default:
-		early, late := c.HookMs < c.TimeoutMs-c18Margin, c.HookMs > c.TimeoutMs+c18Margin
+		// how long the hook really took, as seen from the restore request: the scripted pause plus whatever the machine
+		// added (a 24 ms hook was seen to end after a 100 ms timeout on a loaded machine)
+		actual := float64(c.HookMs)
+		for i := range tr.Events {
+			e := &tr.Events[i]
+			if isRuntimeActor(e.Actor) && e.Seq > r1i.Seq && ((e.Kind == "issue" && (e.Call == "rt.next" || e.Call == "rt.restoreerror" || e.Call == "rt.initerror")) || e.Kind == "exit") {
+				if a := float64(e.TNs-r1i.TNs) / 1e6; a > actual {
+					actual = a
+					out.Label("hook-longer-than-scripted")
+				}
+				break
+			}
+		}
+		early, late := actual < float64(c.TimeoutMs-c18Margin), float64(c.HookMs) > float64(c.TimeoutMs+c18Margin)
 		switch {
 		case late:
 			if !expectTimeout(r1) {
